@@ -108,6 +108,8 @@ func (f *Form) String() string {
 		return "¬" + f.Sub[0].String()
 	case "over":
 		return "⌈" + f.Sub[0].String() + "⌉"
+	case "over2":
+		return "⌈" + f.Sub[0].String() + " / ¬: " + f.Sub[1].String() + "⌉"
 	}
 	var ss []string
 	for _, s := range f.Sub {
@@ -164,6 +166,7 @@ type Summarizer struct {
 	// point but could not be modelled (e.g. a stack-based bracket matcher), with the polarity required there.
 	Dropped   []droppedGuard
 	PropCalls map[string]propCall
+	phiActive map[*ssa.Phi]bool
 	loopCache map[*ssa.Function][]*scanLoop
 	loopOK    map[*ssa.Function]bool
 	Inexact   []string
@@ -725,6 +728,12 @@ func (s *Summarizer) indexCmp(x *ssa.BinOp, env termEnv) *Form {
 }
 
 func (s *Summarizer) binopForm(x *ssa.BinOp, env termEnv) *Form {
+	if f := s.lastByteCmp(x, env); f != nil {
+		return f
+	}
+	if f := s.intAltLenCmp(x, env); f != nil {
+		return f
+	}
 	if f := s.firstByteCmp(x, env); f != nil {
 		return f
 	}
@@ -1122,6 +1131,15 @@ func (s *Summarizer) blockCond(b *ssa.BasicBlock, env termEnv, what string) *For
 }
 
 func (s *Summarizer) phiForm(phi *ssa.Phi, env termEnv) *Form {
+	// a loop-carried flag: its value depends on itself
+	if s.phiActive[phi] {
+		return fUnknown("loop-carried value " + phi.Name())
+	}
+	if s.phiActive == nil {
+		s.phiActive = map[*ssa.Phi]bool{}
+	}
+	s.phiActive[phi] = true
+	defer delete(s.phiActive, phi)
 	d := phi.Block()
 	var alts, conds []*Form
 	for i, p := range d.Preds {
@@ -1553,6 +1571,12 @@ func (l *Lang) Eval(f *Form) (*relang.DFA, []string, error) {
 				return l.All(), nil
 			}
 			return plain(f.Sub[0], true)
+		case "over2":
+			// a condition known only through a consequence of it and a consequence of its negation
+			if !pos {
+				return plain(f.Sub[1], true)
+			}
+			return plain(f.Sub[0], true)
 		case "atom":
 			if f.Atom.Kind == "prop" {
 				if _, assigned := l.Props[f.Atom.Str]; !assigned {
@@ -1627,6 +1651,11 @@ func (l *Lang) Eval(f *Form) (*relang.DFA, []string, error) {
 		case "over":
 			if !pos {
 				return l.All(), nil
+			}
+			return ev(f.Sub[0], true)
+		case "over2":
+			if !pos {
+				return ev(f.Sub[1], true)
 			}
 			return ev(f.Sub[0], true)
 		case "and", "or":
@@ -1986,4 +2015,128 @@ func globalStringConst(g *ssa.Global) (string, bool) {
 	}
 	globalStringCache[g] = &k
 	return k, true
+}
+
+// lastByteCmp recognises term[len(term)-1] ==/!= ASCII constant.
+func (s *Summarizer) lastByteCmp(x *ssa.BinOp, env termEnv) *Form {
+	if x.Op != token.EQL && x.Op != token.NEQ {
+		return nil
+	}
+	v, other := x.X, x.Y
+	if _, isK := v.(*ssa.Const); isK {
+		v, other = other, v
+	}
+	if c, ok := v.(*ssa.Convert); ok {
+		v = c.X
+	}
+	var base, idx ssa.Value
+	switch y := v.(type) {
+	case *ssa.Index:
+		base, idx = y.X, y.Index
+	case *ssa.Lookup:
+		base, idx = y.X, y.Index
+	default:
+		return nil
+	}
+	bo, ok := idx.(*ssa.BinOp)
+	if !ok || bo.Op != token.SUB {
+		return nil
+	}
+	if sv, ok := isLenOf(bo.X); !ok || sv != base {
+		return nil
+	}
+	if k, ok := constIntExpr(bo.Y); !ok || k != 1 {
+		return nil
+	}
+	if !isStringish(base.Type()) {
+		return nil
+	}
+	t, ok := s.termOf(base, env)
+	if !ok {
+		return nil
+	}
+	k, okk := constInt(other)
+	if !okk || k < 0 || k >= 0x80 {
+		return nil
+	}
+	f := atom(&LAtom{Kind: "hassuffix", Str: string(rune(k)), Term: t, Desc: fmt.Sprintf("HasSuffix(%s,%q)", termStr(t), string(rune(k)))})
+	if x.Op == token.NEQ {
+		return fNot(f)
+	}
+	return f
+}
+
+// intConstAlts: the constants an integer value can be (constants and phis of constants).
+func intConstAlts(v ssa.Value, depth int) ([]int64, bool) {
+	if k, ok := constIntExpr(v); ok {
+		return []int64{k}, true
+	}
+	if ph, ok := v.(*ssa.Phi); ok && depth < 3 {
+		var out []int64
+		for _, e := range ph.Edges {
+			ks, ok := intConstAlts(e, depth+1)
+			if !ok {
+				return nil, false
+			}
+			out = append(out, ks...)
+		}
+		return out, true
+	}
+	return nil, false
+}
+
+// intAltLenCmp: c < len(term) (and the other orders) where c is one of finitely many constants:
+// known only through consequences — true implies len > min(c), false implies len <= max(c).
+func (s *Summarizer) intAltLenCmp(x *ssa.BinOp, env termEnv) *Form {
+	op := x.Op
+	a, b := x.X, x.Y
+	// normalise to  a < len  /  a <= len
+	switch op {
+	case token.GTR: // len > a
+		a, b, op = b, a, token.LSS
+	case token.GEQ:
+		a, b, op = b, a, token.LEQ
+	case token.LSS, token.LEQ:
+	default:
+		return nil
+	}
+	sv, ok := isLenOf(b)
+	if !ok || !isStringish(sv.Type()) {
+		return nil
+	}
+	if _, isConst := constIntExpr(a); isConst {
+		return nil // lenCmp handles constants exactly
+	}
+	ks, ok := intConstAlts(a, 0)
+	if !ok || len(ks) == 0 {
+		return nil
+	}
+	t, ok := s.termOf(sv, env)
+	if !ok {
+		return nil
+	}
+	min, max := ks[0], ks[0]
+	for _, k := range ks {
+		if k < min {
+			min = k
+		}
+		if k > max {
+			max = k
+		}
+	}
+	if op == token.LEQ { // a <= len  ≡  a-1 < len
+		min, max = min-1, max-1
+	}
+	// true: len > min (bytes) ⇒ non-empty when min >= 0
+	pos := fTrue()
+	if min >= 0 {
+		pos = fNot(atom(&LAtom{Kind: "empty", Term: t, Desc: fmt.Sprintf("%s==\"\"", termStr(t))}))
+	}
+	// false: len <= max bytes ⇒ at most max symbols
+	neg := fTrue()
+	if max >= 0 && max < 64 {
+		rc := &RegexConst{Name: fmt.Sprintf("longer-than-%d", max), Src: fmt.Sprintf(`^[\s\S]{%d}`, max+1)}
+		neg = fNot(atom(&LAtom{Kind: "search", Regex: rc, Term: t, Desc: fmt.Sprintf("len(%s)>%d", termStr(t), max)}))
+	}
+	return &Form{Op: "over2", Sub: []*Form{pos, neg}}
 }
